@@ -104,10 +104,20 @@ class QueriesLeg(object):
                     q["end"] = max(q["start"], f["end"] + draw(st.integers(-2, 2)))
             added = []
             if draw(st.booleans()):
+                far = max(f["end"] for f in feats)
                 for _ in range(draw(st.integers(1, 3))):
                     iv = draw(interval())
+                    if draw(st.booleans()):  # beyond everything stored so far, usually in another bin
+                        s0 = far + draw(st.sampled_from([1, 5, 1 << 17, (1 << 20) + 7]))
+                        iv = [s0, s0 + draw(st.sampled_from([0, 10, 1000]))]
                     added.append({"seqid": draw(st.sampled_from(SEQIDS)), "ft": draw(st.sampled_from(FTS)), "start": iv[0], "end": iv[1],
                                   "strand": draw(st.sampled_from(["+", "-", "."]))})
+            for a in added:  # and ask about the place where they will land, before and after the update
+                for w in (True, False):
+                    qs.append({"kind": "region", "form": "tuple", "start": max(1, a["start"] - 2), "end": a["end"] + 2, "seqid": a["seqid"],
+                               "within": w, "strand": None, "featuretype": None, "fstrand": "+"})
+                    qs.append({"kind": "limit", "form": "tuple", "method": "all_features", "start": max(1, a["start"] - 2), "end": a["end"] + 2,
+                               "seqid": a["seqid"], "within": w, "strand": None, "featuretype": None})
             return {"features": feats, "queries": qs, "added": added,
                     "shift": draw(st.sampled_from([0, 0, 0, 1 << 17, (1 << 20) + 5, 131070]))}
 
